@@ -28,7 +28,7 @@ YEARS = (1, 4, 100, 400, 999, 1000, 1900, 2000, 2023, 2024, 9999)
 FRACS = ("", "5", "05", "50", "123", "001", "1234", "1230", "000001", "123456",
          "500000", "999999", "100000", "12345")
 ZONES = ["", "Z"] + [f"{s}{h}" for s in "+-" for h in (0, 1, 5, 9)] + \
-    [f"{s}{h:02d}" for s in "+-" for h in (0, 1, 5, 11, 12)] + \
+    [f"{s}{h:02d}" for s in "+-" for h in (0, 1, 5, 11, 12, 13, 14)] + \
     [f"{s}{h:02d}:{m:02d}" for s in "+-" for h in (0, 3, 5, 9) for m in (0, 30, 45)]
 DECODER = {
     "PVL": lambda D, G: D.PVLDecoder(),
